@@ -27,7 +27,7 @@ RULE = (
     "weight, pred = base + weights of the contests whose reported (call-adjusted) margin is positive; called contests "
     "contribute no uncertainty (pred - lower <= weight of predicted winners that are uncalled or stop-listed, upper - "
     "pred likewise for predicted losers); calling a contest for its predicted winner never widens either side; both "
-    "threshold and correlation modes. Non-trivial: (a) a summary after a history whose last computed aggregate is not "
+    "threshold and correlation modes; weight dictionaries with one entry too many, one too few, a single entry or none are rejected with the model error. Non-trivial: (a) a summary after a history whose last computed aggregate is not "
     "the top level; (b) >=1 contest whose bootstrap distribution straddles 0. Distinct = history shape / (mode, calls, "
     "contest pattern). (c) table: one canonical run, one summary call for 2-3 levels at once: the returned one-row table "
     "carries for every level exactly the model's (pred, lower, upper) of that level, ordered."
@@ -250,6 +250,27 @@ def check_model(case, ctx):
     lhs, rhs, stop = case["lhs"], case["rhs"], case["stop"]
     try:
         t, names, w, out = nat_summary(case, lhs, rhs, stop)
+    except Exception as e:
+        ctx.violation("exception", f"{type(e).__name__}: {e}", case, sig=exc_signature(e))
+        return
+    # "a weight dictionary of the wrong size is rejected": one entry too many, one too few, a single entry, none
+    try:
+        model_ws = boot.top_level(case, lhs=lhs, rhs=rhs, stop=stop, model_and_frames=boot.build(case))[0]
+        full = SummaryHistories._weights("ints", sorted(names))
+        wrong = [dict(full, ZZ_extra=1), dict(list(full.items())[:-1]), dict(list(full.items())[:1]), {}]
+        for wd in wrong:
+            if len(wd) == len(names):
+                continue
+            try:
+                got = model_ws.get_national_summary_estimates(copy.deepcopy(wd), case["base"], case["alphas"][0])
+            except Exception as e:
+                if type(e).__name__ != "BootstrapElectionModelException":
+                    viol("wrong_size_other_error", f"{len(wd)} weights for {len(names)} contests: {type(e).__name__}: {e}")
+                    return
+                continue
+            viol("wrong_size_not_rejected", f"{len(wd)} weights for {len(names)} contests accepted: {got}")
+            return
+        ctx.label("wrong_size_dicts_rejected")
     except Exception as e:
         ctx.violation("exception", f"{type(e).__name__}: {e}", case, sig=exc_signature(e))
         return
